@@ -15,8 +15,8 @@
    None.text  (find returned None)            Err AttributeError   (req_elem)
    a value whose computation raised TypeError raised_TypeError     (format_time_as_iso8601(None): round(None, 3); an attribute set to None)
      while the tree was being built            -- the serializers stay total functions; xml_tree_result turns the marker into Err TypeError
-   None / "" stored where the normal form     Err NotNormalForm    (req_some)
-     wants a str (e.g. log.message = e.text)
+   None stored where the normal form wants     Err NotNormalForm    (req_some; since fix F04 the mandatory texts are read through
+     a value (a str, a time)                                        `e.text or ""`, so this only remains for JSON null times)
    e.text or ""                               or_empty (xtext e)   (None and "" both give "")
    truthiness `if x:` on Optional[str]        truthy_ostr (None and "" are false)   -- NOT the same as `is not None` = is_some
    truthiness on Optional[float]              truthy_otime (None and 0.0 are false)
